@@ -149,6 +149,10 @@ def run(case):
         motions += [("rot90", zoo.rot2(np.pi / 2), np.array([0.3, -0.2])), ("generic", zoo.rot2(0.7), np.array([1.0, 2.0]))]
     if bc not in ("none", "clamped-face"):
         motions = motions[:1]  # coordinate-plane boundary conditions are not rigid-motion invariant
+    # the same body in other length units: lambda scales with 1 / s^2 (K ~ s^(d-2), M ~ s^d)
+    UNITS = {"mm": 1e-3, "km": 1e3}
+    if bc in ("none", "clamped-face"):  # (the coordinate-plane dictionaries select by un-scaled coordinates)
+        motions += [(u, s_ * np.eye(d), np.zeros(d)) for u, s_ in UNITS.items()]
     for (E, nu), rho in itertools.product(((1.0, 0.3), (210.0, 0.0), (5.0, 0.45)), (1.0, 7.8)):
         for mlab, Q, t in (motions if (E, nu, rho) == (1.0, 0.3, 1.0) else motions[:1]):
             mesh = fem.Mesh(base.points @ Q.T + t, base.cells, base.cell_type)
@@ -265,7 +269,11 @@ def run(case):
             if (E, nu, rho) == (1.0, 0.3, 1.0) and mlab != "id":
                 st["traces"] += 1
                 sc = np.abs(ref).max()
-                if np.abs(sp - ref).max() > 1e-8 * sc:
+                if mlab in UNITS:
+                    sp2 = sp * UNITS[mlab] ** 2
+                    if np.abs(sp2 - ref).max() > 1e-7 * sc:
+                        bad(f"length-units/{mlab}", "spectrum of the body scaled by s must be the spectrum / s^2", float(np.abs(sp2 - ref).max() / sc), 0, 1e-7)
+                elif np.abs(sp - ref).max() > 1e-8 * sc:
                     bad(f"rigid-motion/{mlab}", "spectrum must be invariant under rigid motion of the mesh", float(np.abs(sp - ref).max() / sc), 0, 1e-8)
     # scaling laws (differential): lambda ~ E / rho at fixed nu
     sample = dict(case=key, unknowns=N, free=int(len(dof1)), spectra=len(spectra))
